@@ -19,3 +19,9 @@ open ZCV.Props.C16
 #print axioms C16_text_handlers_postorder'
 #print axioms C16_text_len'
 #print axioms C16_end_to_end
+#print axioms C16_handlers_postorder_general
+#print axioms C16_handlers_postorder_general_norm
+#print axioms C16_text_handlers_postorder_from_general
+#print axioms C16_general_call_exactly_once
+#print axioms C16_general_all_or_nothing
+#print axioms C16_end_to_end_general
